@@ -469,6 +469,7 @@ func (d *Driver) Apply(s Step) bool {
 			ev.Args["din"], ev.Args["ain"], ev.Args["dout"], ev.Args["minOut"], ev.Args["rcpt"] = din, amt.String(), dout, minOut.String(), rcpt
 			ev.Args["hops"] = len(pids)
 			ev.Args["pool"] = u(pids[0])
+			ev.Args["route"], ev.Args["denoms"] = routeStrs(pids), strs(denoms)
 			d.queue(user, ev, &ammtypes.MsgSwapExactAmountIn{Sender: d.addr(user), Routes: routes, TokenIn: tokenIn, TokenOutMinAmount: minOut, Recipient: d.addr(rcpt)})
 		} else {
 			last := pools[len(pools)-1]
@@ -493,6 +494,7 @@ func (d *Driver) Apply(s Step) bool {
 			ev.Args["din"], ev.Args["aout"], ev.Args["dout"], ev.Args["maxIn"], ev.Args["rcpt"] = din, amt.String(), dout, maxIn.String(), rcpt
 			ev.Args["hops"] = len(pids)
 			ev.Args["pool"] = u(pids[0])
+			ev.Args["route"], ev.Args["denoms"] = routeStrs(pids), strs(denoms)
 			d.queue(user, ev, &ammtypes.MsgSwapExactAmountOut{Sender: d.addr(user), Routes: routes, TokenOut: tokenOut, TokenInMaxAmount: maxIn, Recipient: d.addr(rcpt)})
 		}
 		return true
@@ -884,6 +886,8 @@ func (d *Driver) Apply(s Step) bool {
 	fmt.Println("unknown step", s)
 	return false
 }
+
+func routeStrs(ids []uint64) []any { return idStrs(ids) }
 
 func idStrs(ids []uint64) []any {
 	out := []any{}
